@@ -407,8 +407,8 @@ type GotestsAct struct {
 
 // gtEntry gives the value of a per-process variable for one process id.
 type gtEntry struct {
-	Self tla.Value
-	Get  func() tla.Value // nil = Const
+	Self  tla.Value
+	Get   func() tla.Value // nil = Const
 	Const tla.Value
 }
 
